@@ -10,6 +10,7 @@ from concurrent.futures import ThreadPoolExecutor
 
 import common
 import corpus19 as C
+import prettyprinter as P
 from checks.registry import registry_dict
 
 PP = C.PP
@@ -52,14 +53,23 @@ class Caches:
         self.preds = list(PP._PREDICATE_REGISTRY)
 
     def reset(self):
-        PP._DEFERRED_DISPATCH_BY_NAME.clear()
-        PP._DEFERRED_DISPATCH_BY_NAME.update(self.deferred)
+        """Back to the registrations of the start. The registries are private state: pending by-name printers are put
+        back through the PUBLIC register_pretty (so that whatever the package derives from its registries - a cache of
+        scanned classes, say - is invalidated the way the package itself does it)."""
         rd = registry_dict()
         rd.clear()
         rd.update(self.registry)
         PP.pretty_dispatch._clear_cache()
         PP._PREDICATE_REGISTRY[:] = self.preds
         getattr(PP, '_cnamedtuple_fieldnames_by_class', {}).clear()
+        cur = PP._DEFERRED_DISPATCH_BY_NAME
+        for k in list(cur):
+            if k not in self.deferred:
+                cur.pop(k)
+        for k, fn in self.deferred.items():
+            # (always re-registered, also when still pending: a by-name registration is the event that tells the
+            # package that its view of the classes may be stale - the directly registered entries were just removed)
+            P.register_pretty(k)(fn)
 
 
 def baselines(n):
